@@ -329,10 +329,12 @@ package zygo
 //@ macro sameOrder(h *SexpHash) bool = forall(k, 0 <= k && k < old(len(h.KeyOrder)) ==> h.KeyOrder[k] == old(h.KeyOrder[k]))
 //@ macro absent(h *SexpHash, key Sexp) bool = !has(h.Map, hashOf(key)) || forall(i, 0 <= i && i < len(h.Map[hashOf(key)]) ==> !keq(h.Map[hashOf(key)][i].Head, key))
 
+// (also C20: a lookup that answers without comparing keys answers by symbol number, and the numbers
+// of the builtin names differ from one fresh interpreter to the next)
 //@ func (*SexpHash).HashGetDefault
-//@ C14 pure
-//@ C14 ensures missing: r1 == nil && old(absent(hash, key)) ==> r0 == defaultval
-//@ C14 loop 0 invariant -1 <= rangeindex && rangeindex < len(arr) && forall(i, 0 <= i && i <= rangeindex ==> !keq(arr[i].Head, key))
+//@ C14,C20 pure
+//@ C14,C20 ensures missing: r1 == nil && old(absent(hash, key)) ==> r0 == defaultval
+//@ C14,C20 loop 0 invariant -1 <= rangeindex && rangeindex < len(arr) && forall(i, 0 <= i && i <= rangeindex ==> !keq(arr[i].Head, key))
 
 // HashSet stores under the normalised key: a one-element array key [k] means k.
 //@ macro nkey(key Sexp) Sexp = ite(typeis(key, *SexpArray) && len(key.(*SexpArray).Val) == 1, key.(*SexpArray).Val[0], key)
